@@ -214,3 +214,48 @@ Proof.
   unfold pi_system_run_no_hdpc in Hrun. rewrite Hsys, Hgen in Hrun. cbn [obind] in Hrun.
   exact (pi_run_no_hdpc_complete m _ _ _ r _ _ D M0 M32 Bin eq_refl HP W16 Hcov Hrun).
 Qed.
+
+(* further facts about the generated systems, needed for the absence of panics: enough rows, the rows
+   of the binary matrix under the HDPC block are empty, fewer than 65535 columns left of the PI block *)
+Lemma system_extra m K isis sp bin hd :
+  K <= 56403 -> Forall (fun x => x < 2 ^ 32) isis -> lenN isis < 2 ^ 31 ->
+  sys_params K = Ok sp -> generate_constraint_matrix m K isis = Ok (bin, hd) ->
+  spL sp <= spS sp + spH sp + lenN isis /\
+  (forall k j, spS sp <= k < spS sp + spH sp -> j < spL sp -> cell bin k j = 0) /\
+  spL sp - spP sp < 65535.
+Proof.
+  intros HK Hisis Hn Hsys Hgen.
+  destruct (sys_params_ok K HK) as (K' & J & S & H & W & P1 & Hr & Hp & _ & Hsys').
+  rewrite Hsys in Hsys'. injection Hsys' as ->. cbn [spS spH spL spP].
+  pose proof (row_facts K' J S H W P1 Hr Hp) as RF. destruct RF.
+  pose proof (cm_row_facts K' J S H W P1 Hr Hp) as CF. destruct CF.
+  assert (Hlen : K' + S + H <= S + H + N.of_nat (length isis)).
+  { destruct (N.le_gt_cases (K' + S + H) (S + H + N.of_nat (length isis))) as [Hle|Hgt]; [exact Hle|].
+    rewrite (cm_panics K' J S H W P1 K Hsys m isis Hgt) in Hgen. discriminate. }
+  destruct (cm_generate K' J S H W P1 Hr Hp K Hsys m isis Hisis Hlen)
+    as (bin' & hd' & E & Hwb & Hwh & Heb & Heh).
+  rewrite Hgen in E. injection E as <- <-.
+  unfold lenN in *.
+  split; [exact Hlen|]. split; [|lia].
+  intros k j Hk Hj. rewrite <- ent_is_cell, Heb by lia.
+  replace (k <? S) with false by (symmetry; apply N.ltb_ge; lia).
+  replace (S + H <=? k) with false by (symmetry; apply N.leb_gt; lia).
+  reflexivity.
+Qed.
+
+Lemma system_no_hdpc_extra m K isis sp A :
+  K <= 56403 -> Forall (fun x => x < 2 ^ 32) isis -> lenN isis < 2 ^ 31 ->
+  sys_params K = Ok sp -> generate_constraint_matrix_no_hdpc m K isis = Ok A ->
+  spL sp <= spS sp + lenN isis /\ spL sp - spP sp < 65535.
+Proof.
+  intros HK Hisis Hn Hsys Hgen.
+  destruct (sys_params_ok K HK) as (K' & J & S & H & W & P1 & Hr & Hp & _ & Hsys').
+  rewrite Hsys in Hsys'. injection Hsys' as ->. cbn [spS spH spL spP].
+  pose proof (row_facts K' J S H W P1 Hr Hp) as RF. destruct RF.
+  pose proof (cm_row_facts K' J S H W P1 Hr Hp) as CF. destruct CF.
+  assert (Hlen : K' + S + H <= S + N.of_nat (length isis)).
+  { destruct (N.le_gt_cases (K' + S + H) (S + N.of_nat (length isis))) as [Hle|Hgt]; [exact Hle|].
+    rewrite (cm_panics_no_hdpc K' J S H W P1 K Hsys m isis Hgt) in Hgen. discriminate. }
+  unfold lenN in *.
+  split; [exact Hlen|lia].
+Qed.
